@@ -541,12 +541,29 @@ def r10_4(ctx) -> None:
 
 def _front_end(ctx, u, nested, ev: AbsEval, cls_name: str, wrappers) -> List[Tuple[str, Any]]:
     """Abstractly run lru_cache(maxsize=<class>) and, if it returns the inner decorator,
-    the decorator; returns the (wrapper kind, maxsize argument) pairs constructed."""
+    the decorator; returns the (wrapper kind, maxsize argument) pairs constructed — wherever
+    the construction happens (inline, in the nested decorator or in a private helper)."""
+    from .common import make_resolver
     out: List[Tuple[str, Any]] = []
+    module = u.module
+
+    class _FrontOps(type(ev.ops)):
+        def visit(self, node, env, ev2):
+            if node.kind != "call":
+                return
+            r = ctx.pkg.resolve_expr_global(module, node.ast.func)
+            if r.kind == "lib" and r.qual in wrappers:
+                call = node.ast
+                mx = ev2.eval(call.args[2], env) if len(call.args) >= 3 else None
+                for kw in call.keywords:
+                    if kw.arg == "maxsize":
+                        mx = ev2.eval(kw.value, env)
+                env["@made"] = env.get("@made", ()) + ((wrappers[r.qual], mx),)
+
+    ops = _FrontOps()
     cfg = cfg_of(u)
-    for oc in absint.Machine(cfg, ev.ops).run({"maxsize": cls_name, "typed": "TYPED"}):
+    for oc in absint.Machine(cfg, ops, resolver=make_resolver(ctx, u, ops)).run({"maxsize": cls_name, "typed": "TYPED"}):
         path, env, term = oc.path, oc.env, oc.terminal
-        made = _constructions(ctx, u, path, env, ev, wrappers)
         if term.kind == "raise_exit":
             out.append(("raise", None))
             continue
@@ -554,33 +571,13 @@ def _front_end(ctx, u, nested, ev: AbsEval, cls_name: str, wrappers) -> List[Tup
         rv = ret[-1].info.get("value") if ret else None
         if isinstance(rv, ast.Name) and any(x.qualname.endswith("." + rv.id) for x in nested):
             inner = [x for x in nested if x.qualname.endswith("." + rv.id)][0]
-            for oc2 in absint.Machine(cfg_of(inner), ev.ops).run(dict(env, function="FUNCTION")):
-                p2, env2, term2 = oc2.path, oc2.env, oc2.terminal
-                if term2.kind == "raise_exit":
+            for oc2 in absint.Machine(cfg_of(inner), ops, resolver=make_resolver(ctx, inner, ops)).run(dict(env, function="FUNCTION")):
+                if oc2.terminal.kind == "raise_exit":
                     out.append(("raise", None))
                     continue
-                out.extend(_constructions(ctx, inner, p2, env2, ev, wrappers) or [("nothing", None)])
+                out.extend(list(oc2.env.get("@made", ())) or [("nothing", None)])
         else:
-            out.extend(made or [("nothing", None)])
-    return out
-
-
-def _constructions(ctx, unit, path, env, ev: AbsEval, wrappers) -> List[Tuple[str, Any]]:
-    out = []
-    for n in path:
-        if n.kind == "call":
-            fv = ctx.vals.expr(unit, n.ast.func, n)  # type: ignore[union-attr]
-            for a in fv:
-                if a[0] == "libfn" and a[1] in wrappers:
-                    call = n.ast
-                    mx = None
-                    args = call.args  # type: ignore[union-attr]
-                    if len(args) >= 3:
-                        mx = ev.eval(args[2], env)
-                    for kw in call.keywords:  # type: ignore[union-attr]
-                        if kw.arg == "maxsize":
-                            mx = ev.eval(kw.value, env)
-                    out.append((wrappers[a[1]], mx))
+            out.extend(list(env.get("@made", ())) or [("nothing", None)])
     return out
 
 
